@@ -320,6 +320,13 @@ def gen_cases(seed, tier):
         kind, o1, steps = hist[i]
         cases.append({"cls": "history", "kind": kind, "opts": o1, "steps": list(steps), "cbin": bool(rng.integers(0, 2)), "change_opts": bool(rng.integers(0, 2)),
                       "seed": seed * 10000 + i, "_w": 1.5 * len(steps)})
+    # covering core 2: every pair of compress settings across run -> rerun (and -> overwrite), other options fixed
+    for kind in ("NP2.1", "NP2.4"):
+        for c1 in (0, 2):
+            for c2 in (0, 2):
+                for last in ("rerun", "overwrite"):
+                    cases.append({"cls": "history", "kind": kind, "opts": c1 | 1, "opts_seq": [c1 | 1, c2 | 1, c1 | 1], "steps": ["run", last, "rerun"],
+                                  "cbin": bool(rng.integers(0, 2)), "change_opts": False, "seed": seed * 10000 + 5000 + len(cases), "_w": 4})
     # ---- crash points: one case = one (kind, options) trace, split in slices of crash indices
     combos = [("NP2.4", 7), ("NP2.4", 3), ("NP2.4", 2), ("NP2.1", 2), ("NP2.4r", 5), ("NP2.1", 0), ("NP2.4", 0)]
     nsl = 14 if tier == "quick" else 56
@@ -396,7 +403,9 @@ def run_case(case):
         rec = make_original(rng, root, kind, case["cbin"])
         prior = False
         for si, what in enumerate(case["steps"]):
-            if si > 0 and case["change_opts"]:
+            if "opts_seq" in case:
+                opts = opts_of(case["opts_seq"][si])
+            elif si > 0 and case["change_opts"]:
                 opts = opts_of(int(rng.integers(0, 8)))
             overwrite = what == "overwrite"
             label = f"{kind} {'cbin' if case['cbin'] else 'bin'} history={case['steps']} step {si}:{what} opts={ {k: int(v) for k, v in opts.items()} }"
